@@ -39,5 +39,16 @@ PROPS["C16"] = {
     "assumptions": ["commit/tag exactness on well-formed objects is judged by the engine (grammar serialiser) and not yet a theorem"],
 }
 
+PROPS["C15"] = {
+    "level_text": "Theorems on the model of GetConfig/configKeyMatchesPrefix: every listing git can print (valueless keys, empty/multi-line values, any non-NUL bytes) is read back exactly and in order; prefix matching is the component-boundary relation; correspondence on raw listings (through the real GetConfig with a fake git) and on real config files in global/local/command scopes with the real `git config --list -z` as reference.",
+    "level_note": "Trusted: Lean kernel; the form of git's listing (contract config_list_z, validated against real git 2.39.5 on every generated config); the hand-written model is tied to git/gitconfig.go by differential testing.",
+    "technique": "Lean 4 proof on the listing-parser model + differential correspondence",
+    "modules": ["GitSizer.Props.C15"],
+    "engines": [{"name": "config", "quick": 12000, "thorough": 1200000, "per_shard": 3000},
+                {"name": "confige2e", "quick": 240, "thorough": 12000, "per_shard": 30}],
+    "rule": "config: listings serialised from entry lists (sections refgroup/foreign/near-miss names, subsections with dots/capitals/spaces/quotes, valueless keys, empty/multi-line values), mutated listings, key/prefix pairs cut at every position; confige2e: generated config files (global + local + command-line scope); distinct = distinct input bytes; non-trivial = git accepted the configuration.",
+    "assumptions": ["`git config --list -z` prints key [LF value] NUL per entry"],
+}
+
 NOT_APPLICABLE = {p: "check under construction in this commit; see DESIGN.md §8 for the planned machinery" for p in
                   ["C%02d" % i for i in range(1, 20)]}
